@@ -213,6 +213,12 @@ func c15setup(tier string, seed uint64) int {
 			c15.gated = append(c15.gated, c15gated{Kind: "stop-vs-accept", Listeners: l, Rep: rep})
 			c15.gated = append(c15.gated, c15gated{Kind: "stop-vs-unwind", Listeners: l, Rep: rep})
 		}
+		// Stop while many clients are connecting (free-running: the window between "is the registry stopped?"
+		// and "register" has no schedule point, so it is exercised by repetition)
+		storms := map[string]int{"quick": 24, "thorough": 60}[tier]
+		for k := 0; k < storms; k++ {
+			c15.gated = append(c15.gated, c15gated{Kind: "stop-under-connect-storm", Listeners: []string{"plain", "both"}[k%2], Rep: rep*1000 + k})
+		}
 	}
 	c15.seqs = nil
 	maxLen := map[string]int{"quick": 4, "thorough": 6}[tier]
@@ -440,6 +446,8 @@ func c15runGated(idx int, g c15gated) run.Result {
 			res.Violate(sig+":bind", "after Stop returns the ports can be bound again", why, desc)
 			return res
 		}
+	case "stop-under-connect-storm":
+		stopStorm(&res, s, ctl, idx, g.Rep, "C15", desc)
 	case "stop-vs-unwind":
 		var clients []*tcpClient
 		for i := 0; i < 3; i++ {
@@ -483,6 +491,81 @@ func c15runGated(idx int, g c15gated) run.Result {
 	}
 	res.Sample = desc
 	return res
+}
+
+// stopStorm: Stop in the middle of a connect storm (shared by C15 and C19).
+func stopStorm(res *run.Result, s *lcServer, ctl *sched.Ctl, idx int, rep int, prop string, desc any) {
+	r := rng.New(c15.seed, rng.Str("C15storm"), uint64(idx), uint64(rep))
+	var mu sync.Mutex
+	var conns []*tcpClient
+	stopDial := make(chan struct{})
+	var wg sync.WaitGroup
+	for d := 0; d < 16; d++ {
+		wg.Add(1)
+		go func(d int) {
+			defer wg.Done()
+			for k := 0; k < 12; k++ {
+				select {
+				case <-stopDial:
+					return
+				default:
+				}
+				c, err := s.dial(s.tls != 0 && (d+k)%3 == 0)
+				if err != nil {
+					continue
+				}
+				mu.Lock()
+				conns = append(conns, c)
+				mu.Unlock()
+			}
+		}(d)
+	}
+	// let some connections register, then Stop in the middle of the storm
+	ctl.WaitCount("conn.registered", 4+r.Intn(40), watchdog)
+	if err := s.srv.Stop(); err != nil {
+		close(stopDial)
+		wg.Wait()
+		res.Inconclusive = "Stop failed: " + err.Error()
+		return
+	}
+	close(stopDial)
+	wg.Wait()
+	res.Count("storm_connections", int64(len(conns)))
+	// a connection that still ANSWERS after Stop returned is a definite violation (no timing involved)
+	for _, c := range conns {
+		c.c.SetDeadline(time.Now().Add(300 * time.Millisecond))
+		if _, err := c.c.Write(resp.Encode(resp.Cmd("PING"))); err != nil {
+			continue
+		}
+		if v, err := c.read(); err == nil {
+			res.Violate(prop+":stop-under-connect-storm:served-after-stop", "after Stop returns every client connection has been closed", fmt.Sprintf("a connection opened while Stop was running answered PING with %s after Stop had returned", v), desc)
+			for _, c := range conns {
+				c.c.Close()
+			}
+			return
+		}
+	}
+	// at a fixed point (no server goroutine still working) the registry must be empty
+	deadline := time.Now().Add(watchdog)
+	for time.Now().Before(deadline) && (busyServerGoroutines() > 0 || len(s.srv.Conns()) > 0) {
+		if busyServerGoroutines() == 0 && len(s.srv.Conns()) > 0 {
+			break
+		}
+		time.Sleep(5 * time.Millisecond)
+	}
+	if n := len(s.srv.Conns()); n != 0 {
+		if busyServerGoroutines() == 0 {
+			res.Violate(prop+":stop-under-connect-storm:registry", "after Stop returns the connection registry is empty and every client connection has been closed", fmt.Sprintf("%d connection(s) are still registered and their goroutines are parked waiting for input after Stop returned", n), desc)
+		} else {
+			res.Inconclusive = "server goroutines still working at the end of the watchdog window"
+		}
+	}
+	for _, c := range conns {
+		c.c.Close()
+	}
+	if why := s.probeBindable(); why != "" {
+		res.Violate(prop+":stop-under-connect-storm:bind", "after Stop returns the ports can be bound again", why, desc)
+	}
 }
 
 func c15runSeq(idx int, q c15seq) run.Result {
@@ -635,7 +718,7 @@ func init() {
 	run.Register(&run.Prop{
 		ID: "C15", Level: "fault_enumeration",
 		Rule: func(tier string) string {
-			return "two parts. (gated, hook H2) a controller parks goroutines at named schedule points and releases them in a chosen order: Restart vs the exiting accept loops for {plain, TLS, both} listeners with each old loop's exit (and its deferred close) placed before Stop returns / after the new listeners are open / concurrently (3, 3 and 9 placements); Stop vs a connection accepted while Stop is between its two phases; Stop vs connection goroutines parked at their exit point. Postconditions probed after everything is released: dial+PING on every enabled port (twice), bind probe, client-side EOF, Conns() empty, goroutine profile. (histories) ALL call sequences over {Start, Stop, Restart} up to length 4 (quick) / 6 (thorough) x {plain, plain+TLS} with 0..3 clients connecting, idling or disconnecting between calls; after each call the promise of that call is probed, and at quiescent instants len(Conns()) must equal the number of client sockets held open (waiting on the conn.deregistered point, not on time). Start on a running server is tagged start-while-running. A goroutine leak is only reported when the count stays above baseline for the whole grace window; a goroutine parked at its own schedule point after Stop returned is a strict violation. Children are race-detector builds. distinct = scenario/sequence"
+			return "two parts. (gated, hook H2) a controller parks goroutines at named schedule points and releases them in a chosen order: Restart vs the exiting accept loops for {plain, TLS, both} listeners with each old loop's exit (and its deferred close) placed before Stop returns / after the new listeners are open / concurrently (3, 3 and 9 placements); Stop vs a connection accepted while Stop is between its two phases; Stop vs connection goroutines parked at their exit point; Stop in the middle of a connect storm (16 dialing goroutines, repeated; a connection that answers after Stop returned, or that is still registered at a fixed point, is a violation). Postconditions probed after everything is released: dial+PING on every enabled port (twice), bind probe, client-side EOF, Conns() empty, goroutine profile. (histories) ALL call sequences over {Start, Stop, Restart} up to length 4 (quick) / 6 (thorough) x {plain, plain+TLS} with 0..3 clients connecting, idling or disconnecting between calls; after each call the promise of that call is probed, and at quiescent instants len(Conns()) must equal the number of client sockets held open (waiting on the conn.deregistered point, not on time). Start on a running server is tagged start-while-running. A goroutine leak is only reported when the count stays above baseline for the whole grace window; a goroutine parked at its own schedule point after Stop returned is a strict violation. Children are race-detector builds. distinct = scenario/sequence"
 		},
 		Exhaustive:    func(string) bool { return true },
 		Assumptions:   []string{"TLS listeners are configured through the file-based path with a PKI minted at run time", "wall-clock watchdogs only produce 'inconclusive'"},
